@@ -147,6 +147,85 @@ pub fn cpc_layout(c: &CpcCase, info: &mut CaseInfo) -> Result<(), Fail> {
     Ok(())
 }
 
+/// Every coupon count: a natural (exact arrival-time) stream is fed one coupon at a time and the image is checked
+/// after EVERY novel coupon, so that a threshold that is off by one count (flavor, window offset, pseudo-phase /
+/// Huffman table, sparse-to-hybrid promotion) cannot fall between two sampled states.
+#[derive(Debug, Clone, Serialize, Deserialize)]
+pub struct CpcSweepCase {
+    pub lg_k: u8,
+    pub seed: u64,
+    pub stream_seed: u64,
+    /// sweep until C reaches this many eighths of k
+    pub upto_k8: u8,
+    pub via_union: bool,
+}
+
+pub fn cpc_sweep_case() -> impl Strategy<Value = CpcSweepCase> {
+    (4u8..=12, c05::seed_strategy(), any::<u64>(), prop_oneof![3 => 30u8..=60, 1 => 60u8..=250], proptest::bool::weighted(0.15))
+        .prop_map(|(lg_k, seed, stream_seed, upto_k8, via_union)| CpcSweepCase { lg_k, seed, stream_seed, upto_k8, via_union })
+}
+
+pub fn cpc_sweep(c: &CpcSweepCase, info: &mut CaseInfo, layout: bool) -> Result<(), Fail> {
+    let k = 1u64 << c.lg_k;
+    let target = (k * c.upto_k8 as u64 / 8).max(8);
+    // enough simulated cardinality to collect `target` coupons: C ~ k (log2(n / k) + 1.4) for n >> k
+    let n = k as f64 * ((target as f64 / k as f64) + 2.0).exp2();
+    let coupons = crate::model::cpc::simulate(c.lg_k, n, c.stream_seed, None);
+    let mut s = CpcSketch::with_seed(c.lg_k, c.seed);
+    let mut m = CpcModel::new(c.lg_k);
+    let mut checked = 0u64;
+    for rc in coupons {
+        let rc = if rc == u32::MAX { rc ^ (1 << 6) } else { rc };
+        if !m.fits_capacity(rc) || !m.offer(rc) {
+            continue;
+        }
+        s.verif_row_col_update(rc);
+        let fl = flavor(c.lg_k, m.c);
+        let ctx = format!("lg_k {} C {} flavor {fl} offset {} (sweep, merged {})", c.lg_k, m.c, correct_offset(c.lg_k, m.c), c.via_union);
+        let img_sketch;
+        let sk: &CpcSketch = if c.via_union {
+            let mut u = CpcUnion::with_seed(c.lg_k, c.seed);
+            u.update(&s);
+            img_sketch = u.to_sketch();
+            &img_sketch
+        } else {
+            &s
+        };
+        let bytes = sk.serialize();
+        if layout {
+            let im = cspec::decode(&bytes).map_err(|e| Fail { clause: "C12.cpc.undecodable".into(), detail: format!("{ctx}: the independent FM85 decoder cannot read the image: {e}") })?;
+            ensure!(im.lg_k == c.lg_k && im.num_coupons as u64 == m.c, "C12.cpc.num_coupons", "{ctx}: lgK {} numCoupons {}", im.lg_k, im.num_coupons);
+            if im.matrix != m.rows {
+                let i = (0..m.rows.len()).find(|&i| im.matrix[i] != m.rows[i]).unwrap_or(0);
+                fail!("C12.cpc.matrix", "{ctx}: decoded row {i} = {:#018x}, the stream implies {:#018x}", im.matrix[i], m.rows[i]);
+            }
+        } else {
+            let d = CpcSketch::deserialize_with_seed(&bytes, c.seed).map_err(|e| Fail { clause: "C11.cpc.rejected".into(), detail: format!("{ctx}: own image rejected: {e}") })?;
+            ensure!(d.num_coupons() as u64 == m.c && d.verif_bit_matrix() == m.rows, "C11.cpc.matrix", "{ctx}: bit matrix changed by the round trip");
+            ensure!(d.estimate().to_bits() == sk.estimate().to_bits(), "C11.cpc.estimate", "{ctx}: estimate {} -> {}", sk.estimate(), d.estimate());
+            let (a, b) = (sk.verif_state(), d.verif_state());
+            ensure!(a.window_offset == b.window_offset && a.flavor == b.flavor && a.first_interesting_column == b.first_interesting_column && a.table_entries == b.table_entries, "C11.cpc.state", "{ctx}: state changed: {a:?} -> {b:?}");
+            let w = CpcWrapper::new(&bytes).map_err(|e| Fail { clause: "C11.cpc.wrapper_rejected".into(), detail: format!("{ctx}: {e}") })?;
+            ensure!(w.estimate().to_bits() == d.estimate().to_bits(), "C11.cpc.wrapper", "{ctx}: CpcWrapper estimate {} vs {}", w.estimate(), d.estimate());
+        }
+        checked += 1;
+        if m.c >= target {
+            break;
+        }
+    }
+    info.label(format!("lg_k={}", c.lg_k));
+    info.sum("coupon_counts_checked", checked as f64);
+    info.nontrivial = flavor(c.lg_k, m.c) >= 3;
+    Ok(())
+}
+
+pub fn cpc_sweep_roundtrip(c: &CpcSweepCase, info: &mut CaseInfo) -> Result<(), Fail> {
+    cpc_sweep(c, info, false)
+}
+pub fn cpc_sweep_layout(c: &CpcSweepCase, info: &mut CaseInfo) -> Result<(), Fail> {
+    cpc_sweep(c, info, true)
+}
+
 // ------------------------------------------------------------------------------ Frequent Items
 
 #[derive(Debug, Clone, Serialize, Deserialize)]
